@@ -142,7 +142,11 @@ def run_1090(case):
             if s.wait_for(lambda: SENTINELS[1].hex() in s.lines(), 10.0):
                 fails.append(("C16/1090/line_lost", "a well-formed line sent after the feed was never processed although a later one was"))
             elif s.alive():
-                raise Inconclusive("1090 alive but not responding")
+                s.send(b"\n" + F.line(SENTINELS[2]))
+                if s.wait_for(lambda: SENTINELS[2].hex() in s.lines(), 6.0):
+                    fails.append(("C16/1090/line_lost", "well-formed lines sent after the feed were not processed"))
+                else:
+                    fails.append(("C16/1090/stuck", "1090 is alive but processes no further well-formed line (three sentinels sent over 26 s)"))
             else:
                 fails.append(("C16/1090/terminated", f"1090 terminated: {s.err.decode(errors='replace')[-300:]}"))
         if not crashed:
@@ -389,7 +393,7 @@ def main():
         return
     tier = a.tier
     nworkers = 12
-    per = 6 if tier == "quick" else 130
+    per = 14 if tier == "quick" else 150
     rc = pbt.run_parallel(
         PID, os.path.abspath(__file__), tier, nworkers, per, "fault_enumeration",
         "Hypothesis-generated feeds (well-formed lines of CRC-valid frames of 3 aircraft interleaved with 27 kinds of malformed line), arbitrary segmentation of the byte stream with inter-segment delays on both sides of the 50 ms read timeout, server-side connection drops at arbitrary byte offsets with and without --retry-tcp; both clients as black boxes (1090: stdout; radar: pty + debug log). Oracle: the well-formed lines delivered completely on one connection are processed exactly once and in order (log / stdout restricted to that set), followed by the library's rendering (1090) / reflected in the Airplanes tab counts (radar); client alive afterwards; on disconnect exit 0 + farewell + terminal restored, or reconnect with --retry-tcp. non-trivial = malformed line followed by a well-formed one, or a pause > 50 ms inside a well-formed line, or a drop; distinct by hash of the case",
